@@ -8,12 +8,13 @@ from fractions import Fraction
 import numpy as np
 
 from vlib import core, scen, scengen
+from props import fitfb
 from vlib.core import q, qmat, qvec, nat, coqbool, coqlist
 
 IMPORTS = ("From Coq Require Import List QArith.\n"
            "From RV Require Import base.Num base.LA model.ModelSem model.Kinds model.Online model.FitSem run.RunC06.\n"
            "Import ListNotations.\nOpen Scope Q_scope.")
-TRUSTED = [
+TRUSTED = fitfb.TRUSTED + [
     "LAPACK solve (scipy.linalg.solve assume_a='sym') is replaced by exact Gauss-Jordan over Q (base/LA.v qsolve) in the runner; "
     "the learner is abstract (any a_fit / a_pred) in the theorems",
     "FitSem.v evaluates a forward sub-model node by node over whole datasets (a_run), reservoirpy evaluates it timestep by timestep: "
@@ -24,7 +25,7 @@ TRUSTED = [
     "ESN.fit is decided by the implementation oracle and the correspondence run (chain with per-sequence reset), no separate theorem",
     "oracle: the explicit procedure is executed with the real nodes (Node.run / Node.fit / Node.call / Node.train) on fresh copies",
 ]
-ASSUMPTIONS = [
+ASSUMPTIONS = fitfb.ASSUMPTIONS + [
     "no feedback connections in trained models (feedback / forced teachers are C05), except family fb-noforce: reservoir <<= unfitted readout "
     "fitted with force_teachers=False, where the value received is the readout's own state, zeros (model: NFwdFb feeds zeros to KResFb; "
     "oracle: the same reservoir without the connection); forward nodes keep no memory outside their state",
@@ -551,7 +552,12 @@ def correspondence(ctx):
         if nontrivial(sc, o):
             nt.add(repr(jsonable(sc)))
     failing, err = core.run_cases(ctx.pid, IMPORTS, terms, chunk=3)
-    return {"evaluations": len(cases), "distinct_nontrivial": len(nt),
+    # offline fit of models WITH feedback and ESN.fit (coq/model/FitFb.v, run/RunC06.v chk_fit_fb / chk_esn_fit), sub-id <pid>_fitfb
+    ff = fitfb.run(ctx, ctx.n(28, 280))
+    dist["fitfb"] = dict({k: ff[k] for k in ("evaluations", "distinct_nontrivial", "distribution", "rule")}, disagree=len(ff["failing"]))
+    if ff["error"]:
+        err = (err or "") + "fitfb: " + ff["error"]
+    return {"evaluations": len(cases) + ff["evaluations"], "distinct_nontrivial": len(nt) + ff["distinct_nontrivial"],
             "rule": "Model.fit on {res>>ridge, input>>res>>ridge, deep with 2 and 3 readouts, input-to-readout shortcut (both Concat fan-in orders), "
                     "two parallel readouts, readout fed by the data, cross-stage Concat, ESN node} x {1-3 sequences, warm-up 0-2, reset on/off, "
                     "X/Y as array / list / name-keyed mapping} plus the topologies on which the staging is known to fail; Model.train on "
@@ -560,7 +566,7 @@ def correspondence(ctx):
                     "non-trivial = a learned Wout has a non-zero entry (and T > 1 for train); distinct by scenario text",
             "samples": [keep[0], keep[2]] if len(keep) > 2 else keep[:1],
             "distribution": dist, "tolerance": "1e-9 relative (qclose)",
-            "failing": [dict(keep[i], index=i) for i in failing], "error": err}
+            "failing": [dict(keep[i], index=i) for i in failing] + ff["failing"], "error": err}
 
 
 # ------------------------------------------------------------------------------------------ oracle on the implementation
@@ -743,6 +749,8 @@ def judge_train(sc):
 
 
 def judge(case):
+    if case.get("kind") == "fitfb":        # a fit-with-feedback scenario (props/fitfb.py): decided by the correspondence only
+        return None
     sc = case["scenario"]
     return judge_fit(sc) if sc["op"] == "fit" else judge_train(sc)
 
@@ -800,6 +808,9 @@ def oracle(ctx, scale=1):
 
 
 def replay(payload):
+    ff = [c for c in payload.get("corr_cases", []) if c.get("kind") == "fitfb"]
+    if ff:                                 # a disagreeing fit-with-feedback scenario stored by the correspondence
+        return fitfb.replay(ff[0])
     sc = payload["scenario"]
     if sc.get("kind") == "esn-raw-inputs":
         v = judge_esn_raw_inputs(sc.get("seed", 0))
